@@ -4,7 +4,9 @@ import (
 	"errors"
 	"io"
 	"net"
+	"runtime"
 	"sync"
+	"sync/atomic"
 	"time"
 )
 
@@ -24,6 +26,8 @@ func NewPipeConns() *PipeConns {
 	pc.c2.wCh = ch1
 	pc.c1.pc = pc
 	pc.c2.pc = pc
+	pc.c1.peer = &pc.c2
+	pc.c2.peer = &pc.c1
 	return pc
 }
 
@@ -97,9 +101,14 @@ type pipeConn struct {
 	remoteAddr net.Addr
 	b          *byteBuffer
 
-	rCh chan *byteBuffer
-	wCh chan *byteBuffer
-	pc  *PipeConns
+	rCh  chan *byteBuffer
+	wCh  chan *byteBuffer
+	pc   *PipeConns
+	peer *pipeConn
+
+	// writing is non-zero while a Write call on this end is deciding
+	// whether the pipe is still open and handing its data over.
+	writing atomic.Int32
 
 	readDeadlineTimer  *time.Timer
 	writeDeadlineTimer *time.Timer
@@ -117,6 +126,11 @@ type pipeConn struct {
 func (c *pipeConn) Write(p []byte) (int, error) {
 	b := acquireByteBuffer()
 	b.b = append(b.b[:0], p...)
+
+	// Let the reader know that data may still arrive although the pipe
+	// gets closed right after the check below.
+	c.writing.Add(1)
+	defer c.writing.Add(-1)
 
 	select {
 	case <-c.pc.stopCh:
@@ -204,6 +218,12 @@ func (c *pipeConn) readNextByteBuffer(mayBlock bool) error {
 				return ErrTimeout
 			}
 		case <-c.pc.stopCh:
+			// A Write on the other end that found the pipe open may still be
+			// handing its data over. Wait for it, so a Write that reports
+			// success is readable before EOF and EOF is final.
+			for c.peer.writing.Load() != 0 {
+				runtime.Gosched()
+			}
 			// rCh may contain data when stopCh is closed.
 			// Read the data before returning EOF.
 			select {
